@@ -83,6 +83,10 @@ pub fn run(a: &Args) {
     for (t, pad) in ts {
         go(&mut out, &mut st, &format!("big first-late-name-at={} {}", if t < 16384 { "<16384" } else { ">=16384" }, if pad > 0 { "two-payloads" } else { "one-payload" }), &big_recipe(t, pad), true);
     }
+    for e in ctor_variant_events("compress") {
+        st.case(e["pkt"].to_string(), true);
+        out.emit(e);
+    }
     out.finish(st.into_json("compress",
         "every packet of Gen_Packet (suffix-sharing name tree, all record types) serialised with and without compression and parsed back; large-message recipes in which a name first appears at each offset 16376..16392, 20000, 32768, 49152, 60000, 65000 and is then repeated in owner, RFC 1035 RDATA and SRV positions; non-trivial = at least two entries",
         false));
